@@ -14,15 +14,17 @@ cd "$wt" || exit 2
 res() { echo "$1"; }
 ap() { git apply "$1" 2>/dev/null || git apply -3 "$1" 2>/dev/null; }
 ap "$src/demo.diff" || { echo "$name: demo.diff does not apply"; git -C /repo worktree remove --force "$wt"; exit 3; }
-clean_demo=$(timeout 600 cargo nextest run --offline --no-fail-fast seeded_demo 2>&1 | grep -E "Summary|tests run" | tail -1)
-ap "$src/patch.diff" || { echo "$name: patch.diff does not apply"; git -C /repo worktree remove --force "$wt"; exit 3; }
-patched_demo=$(timeout 600 cargo nextest run --offline --no-fail-fast seeded_demo 2>&1 | grep -E "Summary|tests run" | tail -1)
+clean_demo=$(timeout 600 cargo nextest run --offline --no-fail-fast seeded 2>&1 | grep -E "Summary|tests run" | tail -1)
+PATCH="$src/patch.diff"; [ -f "$src/patch.rebased.diff" ] && PATCH="$src/patch.rebased.diff"
+ap "$PATCH" || { echo "$name: patch does not apply"; git -C /repo worktree remove --force "$wt"; exit 3; }
+patched_demo=$(timeout 600 cargo nextest run --offline --no-fail-fast seeded 2>&1 | grep -E "Summary|tests run" | tail -1)
 # full suite with the patch, demo removed
 git checkout -q -- . ; git clean -fdq src
-ap "$src/patch.diff"
+ap "$PATCH"
 suite=$(timeout 400 cargo nextest run --offline --no-fail-fast --test-threads 8 2>&1 | grep -E "Summary|tests run" | tail -1)
 # the repository's suite occasionally hangs (a test blocked on a pipe write at 0% CPU, also seen on the unchanged tree): retry once
-if [ -z "$suite" ]; then suite=$(timeout 400 cargo nextest run --offline --no-fail-fast --test-threads 8 2>&1 | grep -E "Summary|tests run" | tail -1); fi
+if ! echo "$suite" | grep -q "2300 passed"; then suite=$(timeout 400 cargo nextest run --offline --no-fail-fast --test-threads 8 2>&1 | grep -E "Summary|tests run" | tail -1); fi
+if ! echo "$suite" | grep -q "2300 passed"; then suite=$(timeout 600 cargo nextest run --offline --no-fail-fast --test-threads 4 2>&1 | grep -E "Summary|tests run" | tail -1); fi
 cd /; git -C /repo worktree remove --force "$wt"
 ok=1
 echo "$clean_demo" | grep -q "0 failed\|passed, 0 skipped" || { echo "$clean_demo" | grep -q "failed" && ok=0; }
@@ -31,7 +33,7 @@ echo "$suite" | grep -q "2300 passed" || ok=0
 echo "$suite" | grep -q "failed" && ok=0
 echo "$name: clean_demo=[$clean_demo] patched_demo=[$patched_demo] suite_with_patch=[$suite] confirmed=$ok"
 if [ $ok = 1 ]; then
-  mkdir -p "$out"; cp "$src/patch.diff" "$src/demo.diff" "$out"/; cp "$src/notes.md" "$out"/notes.md 2>/dev/null
+  mkdir -p "$out"; [ "$src" = "$out" ] || { cp "$src/patch.diff" "$src/demo.diff" "$out"/; cp "$src/notes.md" "$out"/notes.md 2>/dev/null; }
   python3 - "$name" "$prop" "$clean_demo" "$patched_demo" "$suite" <<'PY'
 import json,sys,os
 name,prop,cd,pd,su=sys.argv[1:6]
